@@ -1042,6 +1042,12 @@ class Sim18:
             if bexc is not None:
                 self.oracleC["numpy_asymmetric"] = self.oracleC.get("numpy_asymmetric", 0) + 1
                 return
+        if exc2 is not None and any(np.asarray(c).dtype.kind == "b" for c in copies.values()):
+            # unyt refuses to attach a unit to boolean data (Unit.__mul__), which the copying form of e.g.
+            # np.stack does at the end and the out= form (a float buffer) never needs to: no numbers to compare,
+            # and nothing the property speaks about
+            self.oracleC["twin_raised_bool_payload"] = self.oracleC.get("twin_raised_bool_payload", 0) + 1
+            return
         if exc2 is not None:
             self.oracleC["twin_raised"] += 1
             self.violate("C-inplace-succeeded-copy-refused", {"call": op, "copy_exception": type(exc2).__name__},
